@@ -817,6 +817,54 @@ BLANK_AUDIT = [
 
 
 # --------------------------------------------------------------------------
+# tablerow (liquid2.shopify Environment): outside the model, direct oracle only
+
+
+def tablerow_programs(thorough: bool) -> list[dict[str, Any]]:
+    """`tablerow` writes markup of its own (<tr>/<td>), so it is never blank,
+    whatever its cell body: nested in an otherwise blank block it must still
+    emit its skeleton with suppression on.  <L>/<R> are marker positions."""
+    bodies = [("", False), (" \n\u2003", False), (" {%<L> assign z = 1 <R>%}\t", False),
+              ("{#<L> c <R>#} ", False), (" {{<L> i <R>}} ", True), ("x\n", True),
+              ("{%<L> if t <R>%} {%<L> endif <R>%}", False)]
+    args = [("", None, None, 0), ("cols:2", 2, None, 0), ("cols:2 limit:3", 2, 3, 0),
+            ("limit:2 offset:1", None, 2, 1), ("cols:3 offset:2", 3, None, 2)]
+    wrappers = [  # (prefix, suffix, how many times the tablerow runs)
+        ("", "", 1),
+        ("{%<L> if t <R>%} ", "\n{%<L> endif <R>%}", 1),
+        ("{%<L> unless f <R>%}", " {%<L> endunless <R>%}", 1),
+        ("{%<L> for j in two <R>%} ", " {%<L> endfor <R>%}", 2),
+        ("{%<L> for j in none <R>%}{%<L> else <R>%} ", "{%<L> endfor <R>%}", 1),
+        ("{%<L> if f <R>%} {%<L> else <R>%} ", " {%<L> endif <R>%}", 1),
+        ("{%<L> case k <R>%} {%<L> when 1 <R>%}", " {%<L> endcase <R>%}", 1),
+        ("{%<L> with w: 1 <R>%} {%<L> if t <R>%}", "{%<L> endif <R>%} {%<L> endwith <R>%}", 1),
+        ("{%<L> for j in two <R>%}{%<L> if t <R>%} ", " {%<L> endif <R>%}{%<L> endfor <R>%}", 2),
+        ("{%<L> capture c <R>%} ", " {%<L> endcapture <R>%}[{{<L> c <R>}}]", 1),
+    ]
+    out = []
+    n = 0
+    for wi, (pre, suf, times) in enumerate(wrappers):
+        for bi, (body, writes) in enumerate(bodies):
+            for ai, (arg, cols, limit, offset) in enumerate(args):
+                n += 1
+                if not thorough and (wi + bi + ai) % 2:
+                    continue
+                tpl = f"{pre}{{%<L> tablerow i in a {arg} <R>%}}{body}{{%<L> endtablerow <R>%}}{suf}"
+                out.append({"template": tpl, "cols": cols, "limit": limit, "offset": offset, "times": times,
+                            "writes": writes})
+    return out
+
+
+def fill_markers(tpl: str, ms: list[str]) -> str:
+    it = iter(ms)
+    parts = []
+    for piece in tpl.replace("<R>", "<L>").split("<L>"):
+        parts.append(piece)
+        parts.append(next(it, ""))
+    return "".join(parts[:-1])
+
+
+# --------------------------------------------------------------------------
 # Coq terms
 
 
@@ -1352,6 +1400,60 @@ def main(chk: C.Check, build: C.Build) -> None:
             sig = "oracle:suppression-removed-text"
             chk.finding(sig, f"blank-block suppression removed text: {src!r} renders {outs[0]!r}, without suppression {outs[1]!r}",
                         {"source": src, "suppress_on": outs[0], "suppress_off": outs[1]})
+
+    # ---- tablerow (shopify environment): never blank, whatever its cell body
+    from liquid2.shopify import Environment as ShopifyEnvironment
+    shop = {dt: ShopifyEnvironment(default_trim=impl.wmap[dt]) for dt in DTS}
+    tr_stats = {"programs": 0, "renders": 0, "cells_checked": 0}
+    for tp in tablerow_programs(thorough):
+        tr_stats["programs"] += 1
+        npos_t = tp["template"].count("<L>") + tp["template"].count("<R>")
+        assigns = [[m] * npos_t for m in MARKS] + [rf.choices(MARKS, k=npos_t) for _ in range(6 if thorough else 2)]
+        for a_list in ([1, 2, 3, 4, 5], []):
+            d = {"a": a_list, "t": True, "f": False, "two": [0, 0], "none": [], "k": 1}
+            sel = a_list[tp["offset"]:]
+            if tp["limit"] is not None:
+                sel = sel[:tp["limit"]]
+            cells = len(sel) * tp["times"]
+            base: str | None = None
+            for ms in assigns:
+                src = fill_markers(tp["template"], ms)
+                for dt in rf.sample(DTS, 3):
+                    env = shop[dt]
+                    try:
+                        t = env.from_string(src)
+                    except Exception as e:  # noqa: BLE001
+                        chk.finding("oracle:marker-changes-outcome", f"tablerow program does not parse: {src!r}: {type(e).__name__}",
+                                    {"source": src, "default_trim": dt})
+                        continue
+                    for sup in (False, True):
+                        env.suppress_blank_control_flow_blocks = sup
+                        o_sync = t.render(**d)
+                        o_async = run_coro(t.render_async(**d))
+                        tr_stats["renders"] += 2
+                        evaluations += 2
+                        if o_async != o_sync:
+                            chk.finding("oracle:async-differs-from-sync",
+                                        f"render_async() of {src!r} (shopify, default_trim={dt!r} suppress={sup}) gives {o_async!r}, render() gives {o_sync!r}",
+                                        {"source": src, "default_trim": dt, "suppress": sup, "data": d})
+                        e_out = erase(o_sync)
+                        if base is None:
+                            # first: no markers, some default_trim, suppression off; checked on its own:
+                            # one <td> per selected item, and the cell text if the body writes
+                            base = e_out
+                            tr_stats["cells_checked"] += cells
+                            if e_out.count("<td") != cells or (tp["writes"] and cells and "></td>" in e_out):
+                                chk.finding("oracle:tablerow-skeleton",
+                                            f"{src!r} with a={a_list} should write {cells} cells, output {o_sync!r}",
+                                            {"source": src, "data": d, "output": o_sync})
+                        if e_out != base:
+                            chk.finding("oracle:non-whitespace-changed",
+                                        f"markers/default_trim/suppression changed more than whitespace (tablerow): {src!r} "
+                                        f"default_trim={dt!r} suppress={sup} gives {o_sync!r}; other configurations give (whitespace erased) {base!r}",
+                                        {"source": src, "default_trim": dt, "suppress": sup, "data": d, "output": o_sync,
+                                         "other_configurations_erased": base})
+                    env.suppress_blank_control_flow_blocks = True
+    stats["tablerow"] = tr_stats
 
     # ---- (fixed by /repo 33ea620) the lexer split a content run before a final newline,
     # so `-}}` does not trim the whole run
